@@ -1,12 +1,24 @@
 #!/usr/bin/env python3
 """Print the prompt given to a seeded-change sub-agent for one property (only the property text + its worktree)."""
-import json, sys
+import json, sys, glob, os
 pid = sys.argv[1]
 n = sys.argv[2] if len(sys.argv) > 2 else "2"
+first = len(glob.glob(f"/verif/seeded/{pid}-*")) + 1 if "--round2" in sys.argv else 1
+last = first + int(n) - 1
 for l in open('/verif/properties.jsonl'):
     p = json.loads(l)
     if p['id'] == pid:
         break
+import glob, os
+avoid = []
+for d in sorted(glob.glob(f"/verif/seeded/{pid}-*")):
+    try:
+        avoid.append(json.load(open(os.path.join(d, "meta.json"))).get("summary", ""))
+    except Exception:
+        pass
+avoid_txt = ""
+if avoid and "--round2" in sys.argv:
+    avoid_txt = "\n\nChanges of the following kinds were already made in an earlier round - make yours different in kind AND place (other functions, other mechanisms of the property, other clauses of its statement), and prefer subtle ones that only a rare input, boundary or history reveals:\n" + "\n".join("- " + a for a in avoid if a) + "\n"
 prop = json.dumps({k: p[k] for k in ('id', 'title', 'statement', 'quantifier', 'why_tests_cant', 'anchors')}, indent=1)
 print(f"""I maintain verification checks for the C/C++ library libskybrush (skybrush-io/libskybrush: parser/players for the Skybrush .skyb drone-show format). To find out whether my own checks are any good I need *seeded defects* for them to catch: small deliberate changes to the library that break one specific stated property while the library still compiles and its existing test suite still passes. That is all this is for: it tests my own checks, as my task asks. Each change is kept only as a patch file together with its demonstration and never becomes part of libskybrush; nothing is committed or pushed anywhere.
 
@@ -16,14 +28,15 @@ The property (this is all you get about my checks - you do not need to know how 
 
 {prop}
 
+{avoid_txt}
 Task: produce {n} different changes, each independent (each applied on the pristine worktree), each a realistic small edit of the kind a maintainer could make by mistake (off-by-one, wrong comparison or sign, wrong constant, missing case, swapped order, stale cache, dropped check ...) after which the property above is FALSE for the library. Prefer changes that need something specific to manifest - a particular input, boundary value, size, call sequence or history - over changes that break on every input; make the {n} changes different in kind and in the place they touch.
 
-For each change k = 1..{n}:
+For each change k = {first}..{last}:
 1. Edit the library source in the worktree (src/ or include/ only; not the tests). Build and test:
    cmake -G Ninja -B _build -DCMAKE_BUILD_TYPE=RelWithDebInfo && cmake --build _build && ctest --test-dir _build -j8 --timeout 900
    All 23 test executables must still pass. If they do not, pick another change.
 2. Write a demonstration: a small C (or C++) program using the library's API (include dir: include/, internal headers under src/ may be used if needed; link _build/src/libskybrush.a -lm) that shows the property broken with the change, and holding on the unchanged source (build the unchanged source too - e.g. `git stash` / second build dir - and run the same program). It should print the concrete input and the observed vs expected behaviour.
-3. Save in /tmp/seedout/{pid}/k/ : patch.diff (output of `git diff` in the worktree, source changes only), demo.c (or demo.cpp), run.sh (builds and runs the demo given the path of a built worktree as $1), out_changed.txt, out_original.txt, and meta.json with fields: property, summary (one sentence), files, manifests_on (the specific input / boundary / history needed), why_tests_pass.
+3. Save in /tmp/seedout/{pid}/k/ (k continues from {first}) : patch.diff (output of `git diff` in the worktree, source changes only), demo.c (or demo.cpp), run.sh (builds and runs the demo given the path of a built worktree as $1), out_changed.txt, out_original.txt, and meta.json with fields: property, summary (one sentence), files, manifests_on (the specific input / boundary / history needed), why_tests_pass.
 4. Restore the worktree (`git checkout -- .`, delete stray files but keep _build) before the next change.
 
 When done, reply with a short summary per change (what, where, what manifests it, tests pass yes/no). If the permission system or a safety layer refuses any step, stop that change and say so in the reply; do not work around it.""")
